@@ -105,6 +105,10 @@ func OpParams(op *Op) ([]ParamDecl, []string) {
 				pd.Form = "schema-ref"
 			}
 			rs = d.ResolveSchema(rs.Items)
+			// (arrays of arrays: only the kitchen sink has them; the lexemes are those of the innermost items)
+			for rs != nil && rs.Type == "array" {
+				rs = d.ResolveSchema(rs.Items)
+			}
 		}
 		if rs == nil {
 			unmapped = append(unmapped, "parameter "+r.Name+": unresolved schema")
@@ -413,7 +417,7 @@ func CheckC04(p *Pkg, e *Env, r *res.Result) {
 				}
 			}
 		}
-		target := "http://h.example" + p.BasePath + oi.op.Template
+		target := "http://h.example" + escapeForURL(p.BasePath+oi.op.Template)
 		if enc := q.Encode(); enc != "" {
 			target += "?" + enc
 		}
